@@ -129,27 +129,64 @@ def read_stanza(q, cap, name, k):
     return A.stanza(q, [A.node(A.var(v)), A.attrn(A.var(v), A.attr("at", A.cap(cap)), A.attr("round", A.integer(k)), A.attr("got", A.svar(A.cap(cap), name)))])
 
 
+_NESTS = None
+
+
+def nests():
+    """(source index, middle kind, inner kind) such that some node of the inner kind has a proper ancestor of the middle kind
+    (which is not the root) in that corpus tree; and same-range (parent kind, child kind) pairs -- from the oracle's tree tables"""
+    global _NESTS
+    if _NESTS is None:
+        with open(C.sources_json(), encoding="utf-8") as f:
+            trees = json.load(f)
+        chains, same = [], []
+        for si, t in enumerate(trees):
+            ns = t["nodes"]
+            seen_c, seen_s = set(), set()
+            for i, n in enumerate(ns):
+                if not n["named"] or n["err"] or n["miss"]:
+                    continue
+                p = n["parent"]
+                if p and ns[p - 1]["named"] and (ns[p - 1]["sb"], ns[p - 1]["eb"]) == (n["sb"], n["eb"]) and ns[p - 1]["parent"]:
+                    seen_s.add((ns[p - 1]["kind"], n["kind"]))
+                a = p
+                while a:
+                    an = ns[a - 1]
+                    if an["parent"] and an["named"] and an["kind"] != n["kind"] and an["kind"] not in ("ERROR",):
+                        seen_c.add((an["kind"], n["kind"]))
+                    a = an["parent"]
+            chains += [(si + 1, m, i) for (m, i) in sorted(seen_c)]
+            same += [(si + 1, pk, ck) for (pk, ck) in sorted(seen_s)]
+        _NESTS = (chains, same)
+    return _NESTS
+
+
 def chain_file(r):
+    """outer (module) / middle / inner definitions and reads of one inherited name, in the orders that matter:
+    a read before and after a nearer definition appears, in both directions"""
     name = r.choice(NAMES)
-    o, m, i = r.choice(OUTER), r.choice(MIDDLE), r.choice(INNER)
-    if r.random() < 0.3:
-        i = r.choice(MIDDLE)
+    src, mk, ik = r.choice(nests()[0])
+    o, m, i = ("(module) @m ", "m"), ("(%s) @mid " % mk, "mid"), ("(%s) @inn " % ik, "inn")
     steps = [("def", o), ("read", i), ("def", m), ("read", i)]
-    if r.random() < 0.5:
+    k = r.randrange(4)
+    if k == 1:
         steps = [("def", m), ("read", i), ("def", o), ("read", i)]
+    elif k == 2:
+        steps = [("read", i), ("def", m), ("def", o), ("read", i), ("read", m)]
     if r.random() < 0.3:
         steps.insert(r.randrange(len(steps)), ("read", m))
-    if r.random() < 0.2:
+    if r.random() < 0.15:
         r.shuffle(steps)
     stanzas = []
-    for k, (what, (q, cap)) in enumerate(steps):
-        stanzas.append(def_stanza(q, cap, name, "L%d" % k) if what == "def" else read_stanza(q, cap, name, k))
-    return A.file(stanzas, inherit=[name] if r.random() < 0.8 else [])
+    for j, (what, (q, cap)) in enumerate(steps):
+        stanzas.append(def_stanza(q, cap, name, "L%d" % j) if what == "def" else read_stanza(q, cap, name, j))
+    return A.file(stanzas, inherit=[name] if r.random() < 0.85 else []), src
 
 
 def same_range_file(r):
     name = r.choice(NAMES)
-    q, parent, child = r.choice(SAME_RANGE)
+    src, pk, ck = r.choice(nests()[1])
+    q, parent, child = "(%s (%s) @chd) @par " % (pk, ck), "par", "chd"
     order = r.randrange(4)
     st = []
     if order == 0:      # defined on the child, read from the parent
@@ -164,7 +201,7 @@ def same_range_file(r):
     else:               # defined on the child; read from the module root (never an ancestor-or-self of ... the child's parent chain only)
         st = [A.stanza(q, [A.let(A.svar(A.cap(child), name), A.string("on-child")), A.let(A.var("u"), A.cap(parent))]),
               A.stanza("(module) @m ", [A.node(A.var("n")), A.attrn(A.var("n"), A.attr("got", A.svar(A.cap("m"), name)))])]
-    return A.file(st, inherit=[name] if r.random() < 0.7 else [])
+    return A.file(st, inherit=[name] if r.random() < 0.7 else []), src
 
 
 def shaped_cases(tier, prefix="c04s"):
@@ -172,8 +209,8 @@ def shaped_cases(tier, prefix="c04s"):
     n = 60 if tier == "quick" else 1500
     cases = []
     for k in range(n):
-        prog = chain_file(r) if k % 3 else same_range_file(r)
-        cases += A.both_modes("%s-%d" % (prefix, k), prog, r.choice(CHAIN_SOURCES))
+        prog, src = chain_file(r) if k % 3 else same_range_file(r)
+        cases += A.both_modes("%s-%d" % (prefix, k), prog, src)
     return cases
 
 
